@@ -18,7 +18,7 @@ from typing import Any
 import z3
 
 from engine import symx
-from . import common
+from . import chrun, common
 
 
 class SymDotted:
@@ -331,3 +331,5 @@ def run(ctx: common.Context) -> None:
         "symbolic execution of the real PrefixTree/EdgeRegister on atom-valued names; per path the concrete result is "
         "compared with a z3 formula of the specification by validity queries (unsat of the negation) - valid for an unbounded alphabet within the size bounds"
     )
+    if ctx.thorough:
+        chrun.run_crosshair(ctx, "ch_c16.py", per_condition_timeout=60)
